@@ -86,7 +86,10 @@ class ExtSession:
         for i in range(n):
             name = names.pop(ch.draw(len(names), "ext-name"))
             reqs = set(ch.subset(REQ_POOL, 1, 3, "req"))
-            ver = Version(ch.draw(3, "maj"), ch.draw(12, "min"), ch.draw(3, "pat"))
+            ver = Version(ch.draw(3, "maj"), ch.draw(12, "min"), ch.draw(3, "pat"),
+                          prerelease=ch.pick([None, None, "rc.1", "alpha"], "prerelease"), build=ch.pick([None, None, "build.5"], "build"))
+            if ver.prerelease or ver.build:
+                ctx.probe("version_with_prerelease_or_build")
             e = Extension(name, ver, runtime_reqs=set(reqs)) if reqs or ch.coin(1, 2, "reqs-kw") else Extension(name, ver)
             ctx.ev(i, "Extension", {"name": name, "version": str(ver), "reqs": sorted(reqs)})
             if len(reqs) >= 2:
@@ -104,7 +107,19 @@ class ExtSession:
         e = self.exts[i]
         self.counter += 1
         ctx.steps += 1
-        k = ch.weighted([4, 6, 2, 1, 1 if len(self.exts) > 1 else 0, 1], "ext-step")
+        k = ch.weighted([4, 6, 2, 1, 1 if len(self.exts) > 1 else 0, 1 if len(self.exts) > 1 else 0, 1 if len(self.exts) < 4 else 0], "ext-step")
+        if k == 6:
+            # a working copy of an extension, obtained by a round trip: equal to the original as a value, a distinct object
+            from hugr.ext import Extension
+            try:
+                clone = Extension.from_json(e.to_json())
+            except Exception as ex:  # noqa: BLE001
+                ctx.violate("load", f"clone-raised:{type(ex).__name__}", {"ext": e.name, "msg": str(ex)[:200]})
+                return
+            self.exts.append(clone)
+            ctx.probe("extension_cloned_by_round_trip")
+            ctx.ev(i, "clone = from_json(to_json(ext))", {"ext": e.name})
+            return
         if k == 0:
             reuse = list(e.types) and ch.coin(1, 5, "re-add-type")
             name = ch.pick(sorted(e.types), "which") if reuse else f"T{self.counter}"
